@@ -10,11 +10,52 @@
 //   * view functions into the vocabulary of `_shared/batcher_spec.rs`.
 // ---------------------------------------------------------------------------------
 
-// std::sync::Mutex is only ever a *field type* here: every `.lock()` is elided by rule R4.
+// std::sync::Mutex is only ever a *field type* here. Rule R4 (lock model): in extracted bodies the
+// receiver `self.shared.state` of `.lock()` / `.try_lock()` is replaced by `lock_model(state)`, where the
+// parameter `state: &mut State<T>` stands for the content of the mutex; the REAL method name that
+// follows decides what happens:
+//   * `lock()`     always yields the state (mutual exclusion trusted; waiting and poisoning ignored: `Ok`);
+//   * `try_lock()` yields it only if the lock is free — `Err(WouldBlock)` is always possible, and then the
+//     state is untouched.
+// So `lock().unwrap()` never fails while `try_lock().unwrap()` / a skipped `if let Ok(..)` are judged.
 #[verifier::external_type_specification]
 #[verifier::external_body]
 #[verifier::accept_recursive_types(T)]
 pub struct ExMutex<T: ?Sized>(std::sync::Mutex<T>);
+
+pub struct PoisonModel { pub _p: () }
+pub struct WouldBlockModel { pub _p: () }
+#[verifier::external]
+impl core::fmt::Debug for PoisonModel { fn fmt(&self, f: &mut core::fmt::Formatter) -> core::fmt::Result { Ok(()) } }
+#[verifier::external]
+impl core::fmt::Debug for WouldBlockModel { fn fmt(&self, f: &mut core::fmt::Formatter) -> core::fmt::Result { Ok(()) } }
+
+pub struct LockModel<'a, T> { pub st: &'a mut State<T> }
+
+// verified shim: nothing but the pairing
+pub fn lock_model<'a, T>(state: &'a mut State<T>) -> (r: LockModel<'a, T>)
+    ensures *r.st == *old(state), *final(state) == *final(r.st),
+{
+    LockModel { st: state }
+}
+
+impl<'a, T> LockModel<'a, T> {
+    #[verifier::external_body]
+    pub fn lock(self) -> (r: Result<&'a mut State<T>, PoisonModel>)
+        ensures r is Ok, *(r->Ok_0) == *old(self.st), *final(r->Ok_0) == *final(self.st),
+    {
+        unimplemented!()
+    }
+
+    #[verifier::external_body]
+    pub fn try_lock(self) -> (r: Result<&'a mut State<T>, WouldBlockModel>)
+        ensures
+            r is Ok ==> *(r->Ok_0) == *old(self.st) && *final(r->Ok_0) == *final(self.st),
+            r is Err ==> *final(self.st) == *old(self.st),
+    {
+        unimplemented!()
+    }
+}
 
 // The channel contract (C06/C09): an implementation is a FIFO container whose content is
 // `items()`. Everything the sender and receiver prove is relative to this contract.
